@@ -44,9 +44,10 @@ func r092(c *Ctx) {
 	if !c.ob(rule, "HealthCheckCompleted/notifies-consumer", hcc.Pos(), notify != nil, true, "the probe callback must call stateConsumer.TargetStateChanged") {
 		return
 	}
-	// guarded only by newState != previousState and consumer != nil, where both states are cells written under the lock from t.state
+	// guarded only by newState != previousState and consumer != nil, where both states are readings of t.state taken
+	// under the lock (held in a local, in a variable shared with the locked closure, or returned by a helper)
 	var cmpOK, extra bool
-	var prevCell, newCell *ssa.Alloc
+	var sideA, sideB ssa.Value
 	for _, ce := range dominatingConds(notify.Block()) {
 		cm, ok := ce.asCmp()
 		if !ok {
@@ -64,20 +65,19 @@ func r092(c *Ctx) {
 			extra = true
 			continue
 		}
-		if cm.op == token.NEQ {
-			a, b := cellOfLoad(cm.x), cellOfLoad(cm.y)
-			if a != nil && b != nil && a != b {
-				cmpOK = true
-				prevCell, newCell = a, b
-				continue
+		if cm.op == token.NEQ && sideA == nil && cm.x != cm.y && types.Identical(cm.x.Type(), c.named("TargetState")) && types.Identical(cm.y.Type(), c.named("TargetState")) {
+			if _, k1 := cm.x.(*ssa.Const); !k1 {
+				if _, k2 := cm.y.(*ssa.Const); !k2 {
+					cmpOK = true
+					sideA, sideB = cm.x, cm.y
+					continue
+				}
 			}
 		}
 		extra = true
 	}
 	c.ob(rule, "HealthCheckCompleted/notify-iff-state-changed", notify.Pos(), cmpOK && !extra, true, "the notification must be conditional only on 'state changed' (and a consumer being set)")
-	if prevCell != nil {
-		// each of the two cells: all stores are loads of t.state made under inflightLock
-		var storesByCell = map[*ssa.Alloc][]*ssa.Store{prevCell: storesToCell(prevCell), newCell: storesToCell(newCell)}
+	if sideA != nil {
 		var stateStores []ssa.Instruction
 		for _, s := range c.targetStateStores() {
 			if outer(s.fn) == hcc {
@@ -92,45 +92,80 @@ func r092(c *Ctx) {
 				}
 			}
 		}
-		// a reading of the state: the cell is assigned a load of t.state, or the cell's content is what a state store
-		// writes (`newState = f(...); t.state = newState`): then the cell holds the state as of that store
+		// a reading of the state: a load of t.state, or the very value a state store writes (`t.state = v`): then v is
+		// the state as of that store
 		type reading struct {
 			at     ssa.Instruction
 			selfOf ssa.Instruction // the state store this reading coincides with, if any
 		}
-		readings := map[*ssa.Alloc][]reading{}
 		allLocked := true
-		for cell, sts := range storesByCell {
-			if len(sts) == 0 {
+		var readingsOf func(v ssa.Value, at ssa.Instruction, depth int) []reading
+		readingsOf = func(v ssa.Value, at ssa.Instruction, depth int) []reading {
+			if depth > 6 {
 				allLocked = false
+				return nil
 			}
-			for _, st := range sts {
-				if isLoadOfField(st.Val, stateF) && li.holds(st, lock, modeW) {
-					readings[cell] = append(readings[cell], reading{at: st})
-					continue
-				}
-				var via ssa.Instruction
-				for _, ss := range stateStores {
-					sst := ss.(*ssa.Store)
-					if sst.Parent() == st.Parent() && cellOfLoad(sst.Val) == cell && dominates(st, sst) && li.holds(sst, lock, modeW) && li.holds(st, lock, modeW) {
-						via = ss
-					}
-				}
-				if via == nil {
+			// a variable (possibly shared with a closure): every assignment to it
+			if cell := cellOfLoad(v); cell != nil {
+				var out []reading
+				sts := storesToCell(cell)
+				if len(sts) == 0 {
 					allLocked = false
-					continue
 				}
-				readings[cell] = append(readings[cell], reading{at: via, selfOf: via})
+				for _, st := range sts {
+					// the variable's content is what a state store writes
+					var via ssa.Instruction
+					for _, ss := range stateStores {
+						sst := ss.(*ssa.Store)
+						if sst.Parent() == st.Parent() && cellOfLoad(sst.Val) == cell && dominates(st, sst) && li.holds(sst, lock, modeW) && li.holds(st, lock, modeW) {
+							via = ss
+						}
+					}
+					if via != nil {
+						out = append(out, reading{at: via, selfOf: via})
+						continue
+					}
+					out = append(out, readingsOf(st.Val, st, depth+1)...)
+				}
+				return out
 			}
+			if isLoadOfField(v, stateF) {
+				in, _ := v.(ssa.Instruction)
+				if in == nil {
+					in = at
+				}
+				if !li.holds(in, lock, modeW) {
+					allLocked = false
+				}
+				return []reading{{at: in}}
+			}
+			for _, ss := range stateStores {
+				if sst := ss.(*ssa.Store); sst.Val == v {
+					if !li.holds(sst, lock, modeW) {
+						allLocked = false
+					}
+					return []reading{{at: ss, selfOf: ss}}
+				}
+			}
+			if phi, ok := v.(*ssa.Phi); ok {
+				var out []reading
+				for _, e := range phi.Edges {
+					out = append(out, readingsOf(e, phi, depth+1)...)
+				}
+				return out
+			}
+			allLocked = false
+			return nil
 		}
-		c.ob(rule, "HealthCheckCompleted/both-readings-under-target-lock", notify.Pos(), allLocked, true, "the 'before' and 'after' states compared for change detection must both be read from t.state (or be the very value stored into it) while holding inflightLock (a stale 'before' can hide a change and skip the refresh, and is a data race with Drain)")
-		// one cell is read before any state store, the other after all of them (order within the locked closure)
-		classify := func(cell *ssa.Alloc) string {
+		rdA, rdB := readingsOf(sideA, notify, 0), readingsOf(sideB, notify, 0)
+		c.ob(rule, "HealthCheckCompleted/both-readings-under-target-lock", notify.Pos(), allLocked && len(rdA) > 0 && len(rdB) > 0, true, "the 'before' and 'after' states compared for change detection must both be read from t.state (or be the very value stored into it) while holding inflightLock (a stale 'before' can hide a change and skip the refresh, and is a data race with Drain)")
+		// one side is read before any state store, the other after all of them
+		classify := func(rds []reading) string {
 			before, after := true, true
-			if len(readings[cell]) == 0 {
+			if len(rds) == 0 {
 				return "none"
 			}
-			for _, rd := range readings[cell] {
+			for _, rd := range rds {
 				for _, ss := range stateStores {
 					if rd.selfOf == ss {
 						before = false // the value of this very store
@@ -156,7 +191,7 @@ func r092(c *Ctx) {
 			}
 			return "mixed"
 		}
-		k1, k2 := classify(prevCell), classify(newCell)
+		k1, k2 := classify(rdA), classify(rdB)
 		c.ob(rule, "HealthCheckCompleted/before-and-after-readings", notify.Pos(), (k1 == "before" && k2 == "after") || (k1 == "after" && k2 == "before"), true,
 			fmt.Sprintf("one reading must precede every state store and the other follow every state store (got %s/%s)", k1, k2))
 	}
@@ -358,29 +393,25 @@ func r096(c *Ctx, rule string) {
 		}
 	}
 	c.ob(rule, "run/loop-waits-on-ticker", sel.Pos(), sel.Blocking && tickArm >= 0 && inLoop(sel.Block()), true, "the loop must block on the ticker channel (and cancellation)")
-	first, onTick := false, false
+	// every probe runs synchronously in the loop goroutine; one happens before the first wait; the loop cannot wait twice
+	// without probing in between (a tick is always followed by a probe), and it does come back to wait again
+	isProbe := func(in ssa.Instruction) bool {
+		call, ok := in.(*ssa.Call)
+		return ok && isCallTo(call.Common(), check)
+	}
+	isSel := func(in ssa.Instruction) bool { return in == ssa.Instruction(sel) }
 	for _, cs := range callsTo(run, check) {
-		_, isCall := cs.instr.(*ssa.Call)
-		arm, known := selectArm(cs.instr, sel)
-		switch {
-		case !isCall:
+		if _, isCall := cs.instr.(*ssa.Call); !isCall {
 			c.ob(rule, "run/probe-is-synchronous", cs.pos(), false, true, "probes must run one at a time in the loop goroutine (results are applied in probe order); go/defer reorders them")
-		case known && arm == tickArm:
-			onTick = true
-		case !known && dominates(cs.instr, sel):
-			first = true
 		}
 	}
-	c.ob(rule, "run/first-probe-immediately", run.Pos(), first, true, "one probe must run before the loop starts waiting")
-	c.ob(rule, "run/probe-on-every-tick", run.Pos(), onTick, true, "each tick must run a probe, after which the loop continues")
-	if onTick {
-		for _, cs := range callsTo(run, check) {
-			if arm, known := selectArm(cs.instr, sel); known && arm == tickArm {
-				_, back := reach(run, cs.instr, func(in ssa.Instruction) bool { return in == ssa.Instruction(sel) }, nil)
-				c.ob(rule, "run/loop-continues-after-probe", cs.pos(), back, true, "")
-			}
-		}
-	}
+	_, waitsFirst := reach(run, nil, isSel, isProbe)
+	c.ob(rule, "run/first-probe-immediately", run.Pos(), !waitsFirst, true, "one probe must run before the loop starts waiting")
+	_, waitsTwice := reach(run, sel, isSel, isProbe)
+	_, loops := reach(run, sel, isSel, nil)
+	c.ob(rule, "run/probe-on-every-tick", run.Pos(), loops && !waitsTwice, true, "each tick must run a probe, after which the loop continues")
+	c.ob(rule, "run/loop-continues-after-probe", sel.Pos(), loops, true, "")
+	_ = tickArm
 	c.probeLoopStops(rule)
 	// NewHealthCheck starts exactly this loop
 	nhc := c.fn("NewHealthCheck")
